@@ -78,7 +78,7 @@ PROPS["C20"] = dict(
 )
 
 PROPS["C02"] = dict(
-    modules=["contracts.tell"],
+    modules=["contracts.tell", "contracts.queue"],
     claim="_check_values_are_feasible is total (never raises) and returns None exactly when the value(s) are "
           "float-convertible, NaN-free and one per objective, for every Python value incl. str/None/huge ints; "
           "_tell_with_warning: on every exit, normal or exceptional, past argument validation "
@@ -245,6 +245,7 @@ def _rel_all(pid, contract, ob):
     return _rel_mixed(pid, contract, ob)
 
 
+PROPS["C04"]["modules"] = PROPS["C04"]["modules"] + ["contracts.queue"]
 for _p in ("C01", "C03", "C04", "C20"):
     PROPS[_p]["modules"] = PROPS[_p]["modules"] + ["contracts.journal"]
     PROPS[_p]["relevant"] = _rel_all
